@@ -1451,7 +1451,12 @@ class DiameterMessage:
             upper_limit = index + header.get_length()
 
             avp_stream = stream[lower_limit:upper_limit]
-            avps = DiameterAVP.load(avp_stream)
+            try:
+                avps = DiameterAVP.load(avp_stream)
+
+            except RecursionError:
+                raise AVPParsingError("invalid bytes stream. It contains "\
+                                      "Grouped AVPs nested too deeply")
 
             msg = DiameterMessage(header, avps, loaded=True)
             msgs.append(msg)
